@@ -44,6 +44,9 @@ class TRec:
         self.override = False
         self.csum = None
         self.serial = None       # version of a plain generated target (changes at every successful build)
+        self.cserial = None      # version of a checksummed target (changes whenever a build CHANGES the checksum --
+                                 # also back to a value it had before: a dependent that only saw the old value is
+                                 # still rebuilt, which is what "when its checksum does change" demands)
         self.out_ver = None      # FileRec.ver (or MISSING) of the file redo last recorded for this path
         self.deps = []           # [(mode, path, seen_version)]
         self.always = False
@@ -123,7 +126,7 @@ class Model:
             # (a product whose file has vanished keeps its version: rebuilding it with the same checksum must
             # not disturb its dependents)
             if r.csum is not None:
-                return ("c", r.csum)
+                return ("c", r.cserial)
             return ("b", r.serial)
         return ("s", r.out_ver)
 
@@ -201,6 +204,48 @@ class Model:
         self.oob_used = False
         self.overbuild_possible = False
 
+    def single_round_copy(self):
+        """A copy that settles out of band the way the IMPLEMENTATION does (one round of redo-unlocked, whose second
+        phase runs with REDO_NO_OOB and builds the target if it is still uncertain): used only to recognise the
+        known finding D12 exactly -- an over-build is D12 iff this copy predicts precisely the executed set."""
+        m = copy.deepcopy(self)
+        m.single_round = True
+        m.oob_choices = []
+        m.oob_log = []
+        return m
+
+    def _oob_order(self, names):
+        """The implementation hands the uncertain targets to redo-unlocked in HashSet order (arbitrary): every
+        permutation is a possible behaviour; `oob_choices` selects one, `oob_log` records (taken, alternatives)."""
+        import itertools
+        perms = list(itertools.permutations(names)) if len(names) <= 4 else [tuple(names), tuple(reversed(names))]
+        ch = getattr(self, "oob_choices", None)
+        i = ch.pop(0) if ch else 0
+        i = i if i < len(perms) else 0
+        self.oob_log.append((i, len(perms)))
+        return list(perms[i])
+
+    def single_round_outcomes(self, kind, targets, limit=48):
+        """All execution multisets the single-round settle can produce for this command (over the arbitrary orders
+        in which uncertain targets are settled): set of frozenset(Counter.items())."""
+        import collections
+        results = set()
+        stack = [[]]
+        tried = 0
+        while stack and tried < limit:
+            prefix = stack.pop()
+            tried += 1
+            m1 = self.single_round_copy()
+            m1.oob_choices = list(prefix)
+            m1.oob_log = []
+            m1.cmd_redo(targets) if kind == "redo" else m1.cmd_ifchange(targets)
+            results.add(frozenset(collections.Counter(m1.executed).items()))
+            taken = [t for t, _ in m1.oob_log]
+            for i in range(len(prefix), len(m1.oob_log)):
+                for alt in range(1, m1.oob_log[i][1]):
+                    stack.append(taken[:i] + [alt])
+        return results
+
     def cmd_ifchange(self, targets):
         """Top-level redo-ifchange at -j1, unshuffled. Returns True iff exit status is 0."""
         self.begin_run()
@@ -227,7 +272,7 @@ class Model:
                     break
         return ok
 
-    def ifchange(self, p):
+    def ifchange(self, p, no_oob=False):
         r = self.rec.get(p)
         if r is not None and r.failed_run == self.run:
             return 32
@@ -236,6 +281,16 @@ class Model:
         st = self.status(p)
         if st == C:
             return 0
+        if getattr(self, "single_round", False):
+            if st != D and st[1] != frozenset([p]) and not no_oob:
+                self.oob_used = True
+                for c in self._oob_order(sorted(st[1])):
+                    rc = self.ifchange(c, no_oob=True)
+                    if rc != 0:
+                        return rc
+                if self.status(p) == C:
+                    return 0
+            return self.start_self(p)
         if st != D and st[1] != frozenset([p]):
             # out of band: settle the uncertain checksummed targets first, then look again
             self.oob_used = True
@@ -391,7 +446,7 @@ class Model:
                     usermodded = True
             elif k == "out":
                 out_mode = st[1]
-            elif k == "stamp":
+            elif k in ("stamp", "stampgate"):
                 stamped = True
             elif k == "stampif":
                 stamped = st[1] in self.stampflags
@@ -439,6 +494,8 @@ class Model:
         r.done_run = self.run
         if stamped:
             cs = P.sha1(data)
+            if cs != r.csum or r.cserial is None:
+                r.cserial = self._next()
             r.csum = cs
         else:
             r.csum = None
